@@ -291,6 +291,54 @@ func (s *Sched) Step(a *actor) bool {
 	return s.Settle()
 }
 
+// Window lets a parked actor run one closure while the caller - another
+// actor - is in the middle of one (inside a blocking call to the environment).
+// It waits until that closure has ended, or for at most d: a closure that
+// does not end is taken to be blocked on a lock the caller holds (which is
+// how the window is meant to be closed), it goes on once the caller has
+// released the lock and the next Settle waits for it. The wait is a
+// scheduling aid only; no verdict depends on it.
+func (s *Sched) Window(a *actor, d time.Duration) (ended bool) {
+	s.mu.Lock()
+	if s.detached || !a.parked {
+		s.mu.Unlock()
+		return false
+	}
+	a.parked = false
+	a.running = true
+	s.closures++
+	s.mu.Unlock()
+	a.grant <- struct{}{}
+	t := time.AfterFunc(d, func() {
+		s.mu.Lock()
+		s.cond.Broadcast()
+		s.mu.Unlock()
+	})
+	defer t.Stop()
+	deadline := time.Now().Add(d)
+	s.mu.Lock()
+	defer s.mu.Unlock()
+	for a.running {
+		if !time.Now().Before(deadline) {
+			return false
+		}
+		s.cond.Wait()
+	}
+	return true
+}
+
+// ConnActor returns the parked actor of the connection with the given id, if any.
+func (s *Sched) ConnActor(cid string) *actor {
+	s.mu.Lock()
+	defer s.mu.Unlock()
+	for _, a := range s.order {
+		if a.isConn && a.parked && strings.Contains(a.raw, cid) {
+			return a
+		}
+	}
+	return nil
+}
+
 // RunTask runs a captured go-statement body on the caller's goroutine.
 func (s *Sched) RunTask(t *task) bool {
 	s.mu.Lock()
